@@ -193,19 +193,31 @@ Definition svc_force (s : st) (p : peer) : list call :=
 
 (* ---- handlers (one per select! arm / on_* function) ---- *)
 
+(* `pending_outbound.contains_key(&substream_id)` for the id remembered in PeerState::Closed *)
+Definition reusable (s : st) (po : option sid) : option sid :=
+  match po with
+  | Some x => match pend_find x (pend s) with Some _ => Some x | None => None end
+  | None => None
+  end.
+
 Definition on_open (c : cfg) (s : st) (p : peer) : res :=
   match ps s p with
   | None =>
       if negb (should_dial c) then ok_ev s (UFail p E_DIALFAIL)
       else if dialable c p then Some (set_ps s p (Some Dialing), [], [CDial p])
       else ok_ev s (UFail p E_DIALFAIL)
-  | Some (Closed (Some x)) =>
-      ok (set_ps (set_pend s (pend_insert x p (pend s))) p (Some (OutInit x)))
-  | Some (Closed None) =>
-      match svc_open s p with
-      | (s1, Some x) =>
-          Some (set_ps (set_pend s1 (pend_insert x p (pend s1))) p (Some (OutInit x)), [], [COpen p x])
-      | (s1, None) => ok_ev (set_ps s1 p (Some (Closed None))) (UFail p E_NOCONN)
+  | Some (Closed po) =>
+      (* a remembered pending substream id is adopted only while pending_outbound still lists it
+         (its outcome is outstanding); an id whose open already failed is not (the repair of the
+         former finding class 2): a new substream is requested instead *)
+      match reusable s po with
+      | Some x => ok (set_ps (set_pend s (pend_insert x p (pend s))) p (Some (OutInit x)))
+      | None =>
+          match svc_open s p with
+          | (s1, Some x) =>
+              Some (set_ps (set_pend s1 (pend_insert x p (pend s1))) p (Some (OutInit x)), [], [COpen p x])
+          | (s1, None) => ok_ev (set_ps s1 p (Some (Closed None))) (UFail p E_NOCONN)
+          end
       end
   | Some (VPending _) => ok_ev s (UFail p E_VALPENDING)
   | Some _ => ok s
